@@ -116,8 +116,9 @@ def gen_sched_case(rng, variant, gp=False, profile=False):
                 interleave=(not gp), other_kinds=OTHER_KINDS if not gp else [], profile=profile,
                 ties=rng.random() < 0.3, p_fail=rng.choice([0.0, 0.05, 0.15]))
     if kind == "dehb":
-        # DEHB's suggest does not terminate after some trial failures in this snapshot
-        # (dehb_bracket_manager.trial_id_from_parent_slot loops while bracket_delta == 0): not a C11 matter
+        # DEHB after trial failures: suggest() did not terminate before /repo commit 6439fb9 (C05 finding F-C05-2,
+        # dehb_bracket_manager.trial_id_from_parent_slot) and still raises KeyError / AssertionError (F-C05-3/4);
+        # not a C11 matter, so DEHB histories here contain no failures (the worker has a per-case time limit)
         case["p_fail"] = 0.0
     if kind in ("fifo", "hyperband", "pbt", "msr") and not gp and rng.random() < 0.15:
         case["no_clock"] = True     # no TimeKeeper passed: the real clock must not influence suggestions / decisions
